@@ -200,7 +200,8 @@ Definition is_acrash (i : aitem) : bool := match i with ACrash _ => true | _ => 
 (* no process death in the history (clean stops / starts and failing effects are allowed) *)
 Definition no_crash (h : list aitem) : bool := forallb (fun i => negb (is_acrash i)) h.
 
-(* every non-empty block up to height n lies at or below the data watermark *)
+(* every non-empty block up to height n lies at or below the data watermark (its signed data went into a
+   submission the DA layer accepted) *)
 Definition data_submitted (s : anode) (n : N) : bool :=
   forallb (fun p => bempty (snd p) || (fst p <=? a_wd s))
-          (with_heights (base (a_nd s) + 1) (firstn (N.to_nat (n - base (a_nd s))) (chain (a_nd s)))).
+          (firstn (N.to_nat (n - base (a_nd s))) (with_heights (base (a_nd s) + 1) (chain (a_nd s)))).
